@@ -150,7 +150,13 @@ func (g *G) method(s *m.Service, scope map[string]bool) {
 	}
 	hasBodyVerb := true
 	verb := rapid.SampledFrom(bodyVerbs).Draw(t, "verb")
-	if g.p.NoBodyVerbs && rapid.IntRange(0, 2).Draw(t, "nobody") == 0 {
+	streaming := ""
+	if g.p.Streaming && g.p.Runtime && rapid.IntRange(0, 3).Draw(t, "streams") != 0 {
+		// a streaming endpoint: websocket upgrade of a GET request, the payload travels in path, query and headers
+		streaming = rapid.SampledFrom([]string{"result", "payload", "bidirectional", "bidirectional"}).Draw(t, "streamkind")
+		verb, hasBodyVerb = "GET", false
+		g.feat("streaming-" + streaming)
+	} else if g.p.NoBodyVerbs && rapid.IntRange(0, 2).Draw(t, "nobody") == 0 {
 		verb = rapid.SampledFrom(noBodyVerbs).Draw(t, "nbverb")
 		hasBodyVerb = false
 		g.feat("no-body-verb")
@@ -195,17 +201,76 @@ func (g *G) method(s *m.Service, scope map[string]bool) {
 		}
 	}
 
-	// routes
+	// routes (a websocket endpoint only supports GET)
+	g.streamingNow = streaming != ""
 	g.routes(s, meth, verb)
+	g.streamingNow = false
 
 	// result + responses
-	g.result(meth)
+	if streaming != "" {
+		g.streamTypes(meth, streaming)
+	} else {
+		g.result(meth)
+	}
 
 	// errors
 	if g.p.Errors {
 		g.methodErrors(s, meth)
 	}
 	s.Methods = append(s.Methods, meth)
+}
+
+// streamTypes draws the streamed payload and result of a streaming method.
+// The result of a result-streaming or bidirectional method is the streamed
+// result; a payload-streaming method returns one ordinary result at the end.
+func (g *G) streamTypes(meth *m.Method, kind string) {
+	t := g.t
+	msg := func(label string, allowResultType bool) *m.Attr {
+		switch k := rapid.IntRange(0, 7).Draw(t, label+"kind"); {
+		case k == 0:
+			a := m.Prim(g.prim())
+			if a.Type.Kind == m.Any || a.Type.Kind == m.Bytes {
+				a = m.Prim(m.String)
+			}
+			g.feat("streamed-primitive")
+			return a
+		case k == 1:
+			g.feat("streamed-array")
+			return &m.Attr{Type: &m.Type{Kind: m.Array, Elem: m.Prim(rapid.SampledFrom([]m.Kind{m.String, m.Int, m.Int64, m.Float64, m.Boolean, m.UInt32}).Draw(t, label+"elem"))}}
+		case k == 2 && g.p.Maps:
+			g.feat("streamed-map")
+			return &m.Attr{Type: &m.Type{Kind: m.Map, Key: m.Prim(m.String), Val: m.Prim(rapid.SampledFrom([]m.Kind{m.String, m.Int, m.Float64}).Draw(t, label+"mval"))}}
+		case (k == 3 || k == 4) && g.p.UserTypes && len(g.objectTypes()) > 0:
+			g.feat("streamed-user-type")
+			return m.UserRef(rapid.SampledFrom(g.objectTypes()).Draw(t, label+"ut"))
+		case k == 5 && allowResultType && g.p.ResultTypes && len(g.resultTypes()) > 0:
+			g.feat("streamed-result-type")
+			return m.UserRef(rapid.SampledFrom(g.resultTypes()).Draw(t, label+"rt"))
+		}
+		g.feat("streamed-inline-object")
+		return &m.Attr{Type: g.object(2, "")}
+	}
+	meth.Streaming = kind
+	if kind != "result" {
+		meth.StreamingPayload = msg("spayload", false)
+		if RefsValidatedAlias(g.d, meth.StreamingPayload) && g.avoid("C01-streaming-payload-validated-alias") {
+			meth.StreamingPayload = m.Prim(m.String)
+		}
+	}
+	switch kind {
+	case "payload":
+		if rapid.IntRange(0, 3).Draw(t, "finalresult") != 0 {
+			meth.Result = msg("final", false)
+		}
+	default:
+		meth.Result = msg("sresult", true)
+		if meth.Result.Type.Kind == m.User {
+			if ut := g.d.TypeByName(meth.Result.Type.User); ut != nil && ut.Result && len(ut.Views) > 1 && rapid.IntRange(0, 2).Draw(t, "fixview") == 0 {
+				meth.ResultView = ut.Views[rapid.IntRange(0, len(ut.Views)-1).Draw(t, "fixedview")].Name
+				g.feat("fixed-view")
+			}
+		}
+	}
 }
 
 func (g *G) objectTypes() []string {
@@ -488,7 +553,7 @@ func (g *G) routes(s *m.Service, meth *m.Method, verb string) {
 		n := rapid.IntRange(1, 2).Draw(t, "nextra")
 		for i := 0; i < n; i++ {
 			v := verb
-			if rapid.Bool().Draw(t, "otherverb") {
+			if rapid.Bool().Draw(t, "otherverb") && meth.Streaming == "" && !g.streamingNow {
 				if verb == "GET" || verb == "DELETE" || verb == "OPTIONS" || verb == "TRACE" {
 					v = rapid.SampledFrom([]string{"GET", "DELETE"}).Draw(t, "nbverb2")
 				} else {
